@@ -39,23 +39,23 @@ type c20Phase struct {
 }
 
 type c20Spec struct {
-	Names       []string   `json:"names"`
-	Spell       []string   `json:"spelled_as"` // how each name is written in FromCache/CleanCache calls (always the same way within a run)
-	HasInc      []bool     `json:"has_inc"`
-	Ext         []bool     `json:"extends_base,omitempty"` // the second file is a shared parent (extends "base.tpl") instead of an include
-	SameSetName bool       `json:"sets_have_equal_names,omitempty"`
+	Names       []string `json:"names"`
+	Spell       []string `json:"spelled_as"` // how each name is written in FromCache/CleanCache calls (always the same way within a run)
+	HasInc      []bool   `json:"has_inc"`
+	Ext         []bool   `json:"extends_base,omitempty"` // the second file is a shared parent (extends "base.tpl") instead of an include
+	SameSetName bool     `json:"sets_have_equal_names,omitempty"`
 	// OptsOnTpl: the sets keep their default options; the caller switches TrimBlocks on for the
 	// templates it got from the even sets on the template objects themselves (before executing them)
-	OptsOnTpl bool `json:"options_set_on_returned_templates,omitempty"`
-	Loaders     []string   `json:"loaders"`
-	Shared      bool       `json:"sets_share_one_loader_object"`
-	Disk        *DiskSpec  `json:"disk"`
-	Disk1       *DiskSpec  `json:"disk1,omitempty"` // second loader's disk (NLoad == 2)
-	NLoad       int        `json:"loaders_per_set"`
-	Phases      []c20Phase `json:"phases"`
-	Strat       string     `json:"strategy"`
-	strat       Strategy
-	Plan        []FaultSpec `json:"fault_plan,omitempty"`
+	OptsOnTpl bool       `json:"options_set_on_returned_templates,omitempty"`
+	Loaders   []string   `json:"loaders"`
+	Shared    bool       `json:"sets_share_one_loader_object"`
+	Disk      *DiskSpec  `json:"disk"`
+	Disk1     *DiskSpec  `json:"disk1,omitempty"` // second loader's disk (NLoad == 2)
+	NLoad     int        `json:"loaders_per_set"`
+	Phases    []c20Phase `json:"phases"`
+	Strat     string     `json:"strategy"`
+	strat     Strategy
+	Plan      []FaultSpec `json:"fault_plan,omitempty"`
 }
 
 type c20Res struct {
